@@ -11,6 +11,7 @@ import (
 	"math/rand/v2"
 	"net/http/httptest"
 	"reflect"
+	"runtime"
 	"strings"
 	"sync"
 	"testing"
@@ -221,6 +222,18 @@ func c12Frames(r *rand.Rand, i int, cat []c11Class) []c12Frame {
 				continue
 			}
 			out = append(out, c12Frame{data: []byte(fr.text), class: "corrupt/" + fr.class})
+		case c < 74 && r.IntN(2) == 0:
+			// a valid message with one character before or after it that is white space to
+			// Unicode but not to JSON (or is no space at all): not a JSON text
+			m := c11GenMsg(r, vk.Pick(r, []string{"CLOSE", "REQ", "COUNT"}), true)
+			t, _ := text(m)
+			pad := vk.Pick(r, []string{"\v", "\f", "\u0085", "\u00a0", "\u1680", "\u2003", "\u2028", "\u2029", "\u202f", "\u3000", "\ufeff", "\x00", "\x1c"})
+			if r.IntN(2) == 0 {
+				t = pad + t
+			} else {
+				t += pad
+			}
+			out = append(out, c12Frame{data: []byte(t), class: "not-json/padded-with-a-non-json-space"})
 		case c < 74:
 			out = append(out, c12Frame{data: []byte(vk.Pick(r, []string{"hello", "[", "{}", "[\"EVENT\",", "", "null", "42", "\"REQ\"", "[]", "[1,2]", "[\"NOPE\",1]"})), class: "not-a-message"})
 		case c < 77:
@@ -307,6 +320,13 @@ func TestVerif_C12(t *testing.T) {
 	for i := 0; i < nShared && rep.Violations() < 3; i++ {
 		c12SharedRelay(rep, i)
 	}
+	// far more connections than CPUs publish genuine events through one relay at the same
+	// time: every event of every connection reaches the handler, in order, and every
+	// connection is still usable afterwards
+	for i, n := 0, vk.N(1, 6); i < n && rep.Violations() < 3; i++ {
+		c12ManyPublishers(rep, i)
+	}
+	rep.Require(rep.Violations() > 0 || rep.Counter("connections_publishing_at_once") >= 40, "many publishers on one relay")
 	// a client that says what it has to say and closes: whatever it sent before its close
 	// frame reaches the handler, however busy the handler is meanwhile
 	nClose := vk.N(60, 800)
@@ -320,6 +340,126 @@ func TestVerif_C12(t *testing.T) {
 	rep.Require(rep.Counter("connections") >= int64(nConn*9/10), "connections")
 	rep.Require(rep.SetSize("server_message_types") == 7, "all seven server message types")
 	rep.Require(rep.SetSize("frame_classes") >= 40, "frame classes")
+}
+
+// c12ManyPublishers: 3-4 connections per CPU on one relay, each sending 25 properly signed
+// events (prepared beforehand, so that they arrive in a burst) and a sentinel REQ that the
+// handler answers. The handler must have received every connection's events in order.
+func c12ManyPublishers(rep *vk.Report, i int) {
+	r := vk.RNG("C12/many", i)
+	nConn := runtime.GOMAXPROCS(0) * (3 + r.IntN(2))
+	const nEv = 25
+	var mu sync.Mutex
+	got := map[string][]string{} // connection tag -> contents received
+	h := mocrelay.HandlerFunc(func(ctx context.Context, send chan<- mocrelay.ServerMsg, recv <-chan mocrelay.ClientMsg) error {
+		for {
+			select {
+			case <-ctx.Done():
+				return ctx.Err()
+			case m, ok := <-recv:
+				if !ok {
+					return mocrelay.ErrRecvClosed
+				}
+				switch m := m.(type) {
+				case *mocrelay.ClientEventMsg:
+					if tag, _, found := strings.Cut(m.Event.Content, "/"); found {
+						mu.Lock()
+						got[tag] = append(got[tag], m.Event.Content)
+						mu.Unlock()
+					}
+				case *mocrelay.ClientReqMsg:
+					select {
+					case send <- mocrelay.NewServerEOSEMsg(m.SubscriptionID):
+					case <-ctx.Done():
+						return ctx.Err()
+					}
+				}
+			}
+		}
+	})
+	opt := mocrelay.NewDefaultRelayOption()
+	opt.RecvRateLimitRate, opt.RecvRateLimitBurst = 1e9, 1<<30
+	srv := httptest.NewServer(mocrelay.NewRelay(h, opt))
+	defer srv.Close()
+	ctx, cancel := context.WithTimeout(context.Background(), 3*vk.WaitBound)
+	defer cancel()
+	frames := make([][][]byte, nConn)
+	want := make([][]string, nConn)
+	for c := range frames {
+		key := vk.KeyN(100 + c%8)
+		for k := 0; k < nEv; k++ {
+			e := &mocrelay.Event{Kind: 1, CreatedAt: int64(1700000000 + k), Content: fmt.Sprintf("m%d-c%d/%d", i, c, k), Tags: []mocrelay.Tag{}}
+			vk.Sign(key, e)
+			b, _ := json.Marshal([]any{"EVENT", e})
+			frames[c] = append(frames[c], b)
+			want[c] = append(want[c], e.Content)
+		}
+	}
+	start := make(chan struct{})
+	var wg sync.WaitGroup
+	var fmu sync.Mutex
+	failure := ""
+	for c := 0; c < nConn; c++ {
+		wg.Add(1)
+		go func(c int) {
+			defer wg.Done()
+			fail := func(s string) {
+				fmu.Lock()
+				if failure == "" {
+					failure = fmt.Sprintf("connection %d of %d: %s", c, nConn, s)
+				}
+				fmu.Unlock()
+			}
+			conn, _, err := websocket.Dial(ctx, "ws"+strings.TrimPrefix(srv.URL, "http"), nil)
+			if err != nil {
+				fail("dial: " + err.Error())
+				return
+			}
+			defer conn.CloseNow()
+			<-start
+			for _, f := range frames[c] {
+				if err := conn.Write(ctx, websocket.MessageText, f); err != nil {
+					fail("the connection did not take an EVENT frame: " + err.Error())
+					return
+				}
+			}
+			if err := conn.Write(ctx, websocket.MessageText, []byte(`["REQ","zz-sentinel",{}]`)); err != nil {
+				fail("the connection did not take the sentinel REQ: " + err.Error())
+				return
+			}
+			for {
+				_, data, err := conn.Read(ctx)
+				if err != nil {
+					fail("the connection ended before the sentinel REQ was answered: " + err.Error())
+					return
+				}
+				if m, derr := c12Decode(data); derr == nil {
+					if e, is := m.(*mocrelay.ServerEOSEMsg); is && e.SubscriptionID == "zz-sentinel" {
+						break
+					}
+				}
+			}
+			conn.Close(websocket.StatusNormalClosure, "")
+		}(c)
+	}
+	close(start)
+	wg.Wait()
+	rep.Eval(1)
+	if failure != "" {
+		rep.Violation("many-publishers/connection-lost", "with "+fmt.Sprint(nConn)+" connections publishing genuine events at once: "+failure, map[string]any{"connections": nConn, "events_per_connection": nEv})
+		return
+	}
+	mu.Lock()
+	defer mu.Unlock()
+	for c := 0; c < nConn; c++ {
+		tag := fmt.Sprintf("m%d-c%d", i, c)
+		if strings.Join(got[tag], ",") != strings.Join(want[c], ",") {
+			rep.Violation("many-publishers/handler-log-differs", fmt.Sprintf("with %d connections publishing genuine events at once, the handler received %d of the %d events of connection %d (or not in order)", nConn, len(got[tag]), nEv, c),
+				map[string]any{"sent": want[c], "handler_received": got[tag]})
+			return
+		}
+	}
+	rep.Count("connections_publishing_at_once", int64(nConn))
 }
 
 // c12CloseAfterLastFrame: 1-6 valid frames and then a normal close, against a handler that needs
